@@ -106,6 +106,10 @@ func runWithdraw(ctx *action.Context, tx action.RawTx) (bool, action.Response) {
 	}
 
 	withDrawCoin := withdraw.WithdrawAmount.ToCoinWithBase(ctx.Currencies)
+	// the amount must be a valid (known currency, non-negative, representable) amount
+	if !withDrawCoin.IsValid() {
+		return helpers.LogAndReturnFalse(ctx.Logger, action.ErrInvalidAmount, withdraw.Tags(), errors.New("Coin is not valid"))
+	}
 	err = ctx.RewardMasterStore.RewardCm.WithdrawRewards(withdraw.ValidatorAddress, withDrawCoin.Amount)
 	if err != nil {
 		return helpers.LogAndReturnFalse(ctx.Logger, rewards.UnableToWithdraw, withdraw.Tags(), err)
